@@ -37,8 +37,9 @@ def c02(run):
     run.trace("registry-frames", Q(run, 20, 1000), types=["sse.SseBinary", "szse.SzseBinary", "sample.RootPacket"], seed_off=300)
     run.trace("roundtrip-canon", Q(run, 1, 20), seed_off=600, poison=2, small=True)
     run.trace("encode-reuse", Q(run, 2, 12), seed_off=700)
+    run.receiver_design(mode="equal", sample=Q(run, 6000, 60000), sim=Q(run, 500, 6000))
     run.assumptions += ["the pinned schema was frozen from the pinned commit (the .pdsl sources are not in the repository); byte order is per protocol, taken from the scalar fields"]
-    return run.finish(RULE_TRACE)
+    return run.finish(RULE_RCV + RULE_TRACE)
 
 
 FRAMES5 = ["sse.SseBinary", "szse.SzseBinary", "risk.RcBinary", "sample.RootPacket", "bse.BjseBinary"]
@@ -56,6 +57,12 @@ def wire_design(run, devs, mode="clauses"):
         run.wire_model(cfg, expect=inv)
     run.behaviour_replay(Q(run, "MCWire_export3.cfg", "MCWire_export4.cfg"), sample=None, mode=mode)
 
+
+RULE_RCV = ("Kept receivers: WireMachine with Receivers = TRUE over a universe of its own (one frame type with three registered bodies and none, one "
+            "extension owner with two application ids; seed-dependent) - every Decode(T) goes into ONE receiver per type kept for the whole history, "
+            "DecodeRefused(T) is a decode the interpreter refuses, after which the caller drops the buffer; exhaustive for <= 5 (thorough 6) operations: "
+            "ReceiverIndependent (what a successful decode yields depends on the bytes alone); deviation Receiver_KeepsBody must violate it; every behaviour "
+            "of depth 5 with >= 2 decodes (or a sample of them) and random walks of 7 operations (tlc -simulate) are executed on the real types with kept receivers. ")
 
 RULE_WIRE = ("design model: WireMachine.tla, exhaustive over every history of <= 3 (quick) / 5 (thorough) public operations {Encode of each of 11 sample "
              "messages (every frame type with and without body, a frame whose body is refused after it wrote something, a plain message), SetStale, Decode, Next(1|5|one frame), Reset, WriteRaw}; the named "
@@ -113,7 +120,8 @@ def c07(run):
     run.trace("long-lists", Q(run, 1, 2), seed_off=100, chunk=8)
     run.trace("prim-sweep", Q(run, 1, 2), seed_off=200, chunk=600)
     run.trace("stream", Q(run, 1, 20), seed_off=300, poison=2, small=True)
-    return run.finish(RULE_WIRE + RULE_TRACE + RULE_POISON + "long-lists: lists whose count x element size crosses 65,536 followed by a second message.")
+    run.receiver_design(sample=Q(run, 2500, 30000), sim=Q(run, 300, 4000))
+    return run.finish(RULE_WIRE + RULE_RCV + RULE_TRACE + RULE_POISON + "long-lists: lists whose count x element size crosses 65,536 followed by a second message.")
 
 
 def c08(run):
@@ -183,7 +191,8 @@ def c12(run):
     run.trace("tables", Q(run, 1, 8))
     run.trace("tables-dynamic", Q(run, 2, 30), seed_off=100, patch_tables=True)
     run.trace("tables", Q(run, 1, 4), seed_off=200, poison=1, small=True)
-    return run.finish(RULE_TRACE + "tables-dynamic: one new key and one overridden key per table registered through the exported Registry...Factory functions in a "
+    run.receiver_design(sample=Q(run, 2500, 30000), sim=Q(run, 300, 4000))
+    return run.finish(RULE_RCV + RULE_TRACE + "tables-dynamic: one new key and one overridden key per table registered through the exported Registry...Factory functions in a "
                       "process of its own; the specification then judges that run against the pinned tables patched with the logged registrations. "
                       "All 18 tables x all 226 registered keys x unregistered keys (numeric: every key +-1, byte-swapped, 0, all-ones, 16 random; text: all 512 3-character strings over an 8-symbol alphabet plus prefixes/extensions of registered keys).")
 
@@ -191,7 +200,8 @@ def c12(run):
 def c15(run):
     run.trace("dirty", Q(run, 3, 150))
     run.trace("dirty", Q(run, 1, 20), seed_off=100, poison=1, small=True)
-    return run.finish(RULE_TRACE)
+    run.receiver_design(sample=Q(run, 4000, 60000), sim=Q(run, 500, 6000))
+    return run.finish(RULE_RCV + RULE_TRACE)
 
 
 def c16(run):
